@@ -26,6 +26,8 @@ class Only:
         if self._pred(sig, text):
             return self._v.violation(sig, text, obj)
         object.__setattr__(self, "other", self.other + 1)
+        if self.other <= 5:
+            log("(left to its own property's check: %s)" % sig)
 
 
 def run_members(v, members, tier, rng, pred, scale):
